@@ -13,6 +13,8 @@ CONSTANTS
   ClassComments <- TwoStyles
   TopAlpha <- None
   MaxTops = 0
+  AliasAlpha <- None
+  MaxAliases = 0
   CmdKinds <- None
 INVARIANT OneOwner
 INVARIANT RefsBackward
